@@ -247,7 +247,12 @@ class Engine:
                 for v in s['vals']:
                     vn = ident(v['n'])
                     w(f'class V_{an}_{sn}_{vn}(dawgie.Value):')
-                    w('    def __init__(self, content=None):')
+                    if hit('val-ctor-arg', a['n']):
+                        # pickles, but can never be loaded again: Value.__setstate__
+                        # rebuilds the object with self.__class__()
+                        w('    def __init__(self, content):')
+                    else:
+                        w('    def __init__(self, content=None):')
                     w('        self.content = content')
                     if hit('unpicklable', a['n']):
                         w('        self.hook = lambda: 0')
@@ -273,6 +278,8 @@ class Engine:
                     for v in s['vals']:
                         key = v['n'] + ('.q' if hit('dot-val', a['n']) else '')
                         val = 'object()' if hit('val-base', a['n']) else f"V_{an}_{sn}_{ident(v['n'])}()"
+                        if hit('val-ctor-arg', a['n']):
+                            val = val[:-2] + "('c')"
                         w(f"        self[{key!r}] = {val}")
                 if not hit('sv-no-name', a['n']):
                     w('    def name(self):')
